@@ -45,7 +45,9 @@ def norm(x):
     return x
 
 
-COLLS = [tuple(p) for n in range(0, 4)
+import os
+THOROUGH = os.environ.get('VERIF_TIER') == 'thorough'
+COLLS = [tuple(p) for n in range(0, 5 if THOROUGH else 4)
          for p in itertools.product((0, 1, 2), repeat=n)]
 PAIRS = [tuple(p) for n in range(0, 4)
          for p in itertools.product(((0, 'a'), (1, 'b'), (0, 'c'), (1, 'd')),
